@@ -1,5 +1,5 @@
 """C13 - static priority always serves the highest-priority backlogged flow"""
-from . import sched as S, elements
+from . import sched as S, elements, deps
 
 def check(ctx):
     S.run_tables(ctx, 'C13', [('SP', '__init__'), ('SP', 'run'), ('SP', 'put'), ('MultiQueueScheduler', 'put'),
@@ -8,6 +8,7 @@ def check(ctx):
     elements.sp_rescan(ctx, 'C13')
     elements.send_packet_awaited(ctx, 'C13', only=('SP',))
     elements.class_method_sets(ctx, 'C13', only=('SP', 'MultiQueueScheduler', 'Scheduler'))
+    deps.element_layers(ctx, 'C13')
     return ('Static: SP.__init__ (scan list sorted by the priority value, descending) and SP.run (skip a flow iff its '
             'queue is empty at the time, serve one packet awaited, leave the scan and restart from the top after every '
             'service) compared with reference tables, plus the path rule "after a transmission the scan loop is left '
